@@ -2,6 +2,7 @@
 use crate::run::Builder;
 pub mod mutex;
 pub mod sem;
+pub mod cqueue;
 pub mod condvar;
 pub mod chan;
 pub mod rwlock;
@@ -11,6 +12,7 @@ pub fn lookup(name: &str) -> Option<Builder> {
     match name {
         "mutex" => Some(mutex::build),
         "sem" => Some(sem::build),
+        "cqueue" => Some(cqueue::build),
         "condvar" => Some(condvar::build),
         "chan" => Some(chan::build),
         "rwlock" => Some(rwlock::build),
